@@ -14,7 +14,7 @@ python3 - $T/report.json <<'PY'
 import json,sys
 r=json.load(open(sys.argv[1]))
 modes=[s['mode'] for s in r['sites']]
-assert len(r['sites'])==9 and modes.count('skipped')==1 and not r.get('warnings'), r
+assert len(r["sites"])==9 and modes.count('skipped')==1 and not r.get('warnings'), r
 assert sum(1 for s in r['sync_sites'] if s['mode']!='skipped')>=15, r['sync_sites']
 print("instrumenter: %d map sites (%s), %d sync sites"%(len(modes),",".join(modes),len(r['sync_sites'])))
 PY
